@@ -231,6 +231,26 @@ def run_case(case, ctx):
                 ctx.viol(f"sample-disagrees-with-density:{cls}", {**info, "stage1": [pks, pchi], "stage2": [pks2, pchi2], "ks_distance": D,
                                                                   "seeds": [seed1, seed2]})
                 return
+        # the sample mean against the mean of the declared density (light-tailed cells only: excess kurtosis < 20, where the
+        # normal approximation of the mean of 20000 draws is safe); two-stage like the other tests
+        try:
+            mu_, var_, kur_ = [float(v) for v in ref.stats(moments="mvk")]
+        except Exception:
+            mu_ = var_ = kur_ = math.nan
+        if math.isfinite(mu_) and math.isfinite(var_) and var_ > 0 and math.isfinite(kur_) and kur_ < 20:
+            ctx.count("statistical_tests", 1)
+            z1 = (float(a.mean()) - mu_) / math.sqrt(var_ / len(a))
+            if abs(z1) > 4.5:
+                seedm = base.derive("c15-stage2-mean", base.canon(case), os_seed()) % (2 ** 31)
+                _, xm = _sample(cls, args, seedm, N2)
+                ctx.count("draws_tested", N2)
+                ctx.count("stage2_runs")
+                bm = np.asarray(xm, dtype=float)
+                z2 = (float(bm.mean()) - mu_) / math.sqrt(var_ / len(bm))
+                if abs(z2) > 6.5 and (z1 > 0) == (z2 > 0):
+                    ctx.viol(f"sample-mean-disagrees-with-density:{cls}", {**info, "z_stage1": z1, "z_stage2": z2, "declared_mean": mu_,
+                                                                          "sample_mean_stage2": float(bm.mean()), "seeds": [seed1, seedm]})
+                    return
         if cls in ("DistNormal", "DistLogNormal", "DistNormalTrunc"):
             if not _cdf_checks(ctx, dist, ref, cls, args, info):
                 return
@@ -240,6 +260,22 @@ def run_case(case, ctx):
         pchi = _chi_disc(xs, ref)
         ctx.count("statistical_tests", 1)
         ctx.seen("min_pvalue_decade", f"1e{int(math.floor(math.log10(max(pchi, 1e-300))))}")
+        # a shift of the whole sample by a fraction of a standard deviation (an off-by-one on a wide support) is what
+        # binned tests are weakest at: the sample mean against the mean of the declared probabilities (two-stage z-test)
+        mu_, sd_ = float(ref.mean()), float(ref.std())
+        if math.isfinite(mu_) and math.isfinite(sd_) and sd_ > 0:
+            ctx.count("statistical_tests", 1)
+            z1 = (float(np.mean(np.asarray(xs, dtype=float))) - mu_) / (sd_ / math.sqrt(len(xs)))
+            if abs(z1) > 4.0:
+                seedm = base.derive("c15-stage2-mean", base.canon(case), os_seed()) % (2 ** 31)
+                _, xm = _sample(cls, args, seedm, N2)
+                ctx.count("draws_tested", N2)
+                ctx.count("stage2_runs")
+                z2 = (float(np.mean(np.asarray(xm, dtype=float))) - mu_) / (sd_ / math.sqrt(len(xm)))
+                if abs(z2) > 6.0 and (z1 > 0) == (z2 > 0):
+                    ctx.viol(f"sample-mean-disagrees-with-probabilities:{cls}", {**info, "z_stage1": z1, "z_stage2": z2, "declared_mean": mu_,
+                                                                                "sample_mean_stage2": float(np.mean(np.asarray(xm, dtype=float))), "seeds": [seed1, seedm]})
+                    return
         if pchi < P1:
             seed2 = base.derive("c15-stage2", base.canon(case), os_seed()) % (2 ** 31)
             _, xs2 = _sample(cls, args, seed2, N2)
